@@ -32,7 +32,11 @@ Fixpoint first_expr (p : list pitem) : option N :=
   | PWild :: r => first_expr r
   end.
 
+(* LIMIT n is built by expr_of_i64 (gen_expr.rs): Value::Number(n.to_string(), n.leading_zeros() < 32) -- sqlparser prints the
+   `long` flag as a suffix L, so every n >= 2^32 (and every negative n) is spelled `<n>L`; OFFSET and FETCH go through
+   translate_expr and are plain.  [LNum z] stands for that spelling: decimal digits, then L iff [lim_long z]. *)
 Inductive limval := LNum (z : Z) | LSpell (s : list N).
+Definition lim_long (z : Z) : bool := (z <? 0) || (4294967296 <=? z).
 (* ORDER BY of the query: the n keys of the last Sort (0 = no ORDER BY), or one forced key *)
 Inductive ordk := OKeys (n : nat) | OFallbackNull | OFallbackExpr (e : N).
 Record clauses := mkClauses { k_limit : option limval; k_offset : option (Z * bool) (* value, ROWS *); k_fetch : option Z; k_order : ordk }.
@@ -80,7 +84,7 @@ Fixpoint find_feat {F} (fs : list (str * F)) (d : str) : option F :=
   match fs with [] => None | (d', f) :: r => if leqb d' d then Some f else find_feat r d end.
 
 Definition limval_code (l : option limval) : N * Z * list N :=
-  match l with None => (0%N, 0, []) | Some (LNum z) => (1%N, z, []) | Some (LSpell s) => (2%N, 0, s) end.
+  match l with None => (0%N, 0, []) | Some (LNum z) => ((if lim_long z then 3%N else 1%N), z, []) | Some (LSpell s) => (2%N, 0, s) end.
 Definition offset_code (o : option (Z * bool)) : N * Z * bool :=
   match o with None => (0%N, 0, false) | Some (z, r) => (1%N, z, r) end.
 Definition fetch_code (f : option Z) : N * Z := match f with None => (0%N, 0) | Some z => (1%N, z) end.
